@@ -234,7 +234,7 @@ pub fn run(lines: &[String]) -> Vec<String> {
                 for e in &t[1..] {
                     let p: Vec<&str> = e.split(':').collect();
                     let mult = if p[2] == "all" { shard_count() } else { p[2].parse().unwrap() };
-                    conc_sched.push(crate::sched::Ev { tid: p[0].parse().unwrap(), kind: p[1].parse().unwrap(), mult });
+                    conc_sched.push(crate::sched::Ev { tid: p[0].parse().unwrap(), kind: p[1].parse().unwrap(), mult, attempt: p.len() > 3 });
                 }
             }
             "conc_run" => {
